@@ -28,17 +28,32 @@ import (
 
 type Describer struct {
 	p        *Prog
-	memo     map[ssa.Value]string
-	memoIn   map[ssa.Value]string // memo for values described inside call arguments
-	inCall   int
+	memo     map[memoKey]string
+	inCall   int  // nesting depth inside call arguments
+	full     bool // render nested calls in full (used to fingerprint elided calls)
 	under    *Reach // when set, φ-nodes only merge the edges that are reachable in this walk
 	busy     map[ssa.Value]bool
 	allocIdx map[*ssa.Alloc]int
 	maxDepth int
 }
 
+type memoKey struct {
+	v    ssa.Value
+	mode int
+}
+
+func (d *Describer) mode() int {
+	if d.full {
+		return 3
+	}
+	if d.inCall > 2 {
+		return 2
+	}
+	return d.inCall
+}
+
 func NewDescriber(p *Prog) *Describer {
-	return &Describer{p: p, memo: map[ssa.Value]string{}, memoIn: map[ssa.Value]string{}, busy: map[ssa.Value]bool{}, allocIdx: map[*ssa.Alloc]int{}, maxDepth: 12}
+	return &Describer{p: p, memo: map[memoKey]string{}, busy: map[ssa.Value]bool{}, allocIdx: map[*ssa.Alloc]int{}, maxDepth: 12}
 }
 
 func (d *Describer) D(v ssa.Value) string { return d.desc(v, 0) }
@@ -46,7 +61,7 @@ func (d *Describer) D(v ssa.Value) string { return d.desc(v, 0) }
 // DUnder renders the origin of v restricted to a walk: φ-nodes merge only the
 // incoming edges that the walk may take ("the value of v when σ holds").
 func (d *Describer) DUnder(v ssa.Value, reach *Reach) string {
-	sub := &Describer{p: d.p, memo: map[ssa.Value]string{}, memoIn: map[ssa.Value]string{}, busy: map[ssa.Value]bool{}, allocIdx: d.allocIdx, maxDepth: d.maxDepth, under: reach}
+	sub := &Describer{p: d.p, memo: map[memoKey]string{}, busy: map[ssa.Value]bool{}, allocIdx: d.allocIdx, maxDepth: d.maxDepth, under: reach}
 	return sub.desc(v, 0)
 }
 
@@ -249,11 +264,8 @@ func (d *Describer) desc(v ssa.Value, depth int) string {
 	if v == nil {
 		return "<nil>"
 	}
-	memo := d.memo
-	if d.inCall > 0 {
-		memo = d.memoIn
-	}
-	if s, ok := memo[v]; ok {
+	mk := memoKey{v, d.mode()}
+	if s, ok := d.memo[mk]; ok {
 		return s
 	}
 	if depth > d.maxDepth {
@@ -266,7 +278,7 @@ func (d *Describer) desc(v ssa.Value, depth int) string {
 	s := d.desc1(v, depth)
 	delete(d.busy, v)
 	if !strings.Contains(s, "…") && !strings.Contains(s, "φ") {
-		memo[v] = s
+		d.memo[mk] = s
 	}
 	return s
 }
@@ -472,10 +484,42 @@ func isInduction(p *ssa.Phi) bool {
 	return false
 }
 
+func fp4(s string) string {
+	var h uint32 = 2166136261
+	for i := 0; i < len(s); i++ {
+		h ^= uint32(s[i])
+		h *= 16777619
+	}
+	const hex = "0123456789abcdef"
+	return string([]byte{hex[(h>>12)&15], hex[(h>>8)&15], hex[(h>>4)&15], hex[h&15]})
+}
+
+func (d *Describer) callDescFull(c *ssa.CallCommon, depth int) string {
+	name := calleeName(c)
+	var args []string
+	if c.IsInvoke() {
+		args = append(args, d.desc(c.Value, depth+1))
+	} else if name == "" {
+		name = "dyn(" + d.desc(c.Value, depth+1) + ")"
+	}
+	for _, a := range c.Args {
+		args = append(args, d.desc(a, depth+1))
+	}
+	return name + "(" + strings.Join(args, ", ") + ")"
+}
+
 func (d *Describer) callDesc(c *ssa.CallCommon, depth int) string {
 	name := calleeName(c)
-	if d.inCall > 0 && name != "" && name != "len" && name != "append" && name != "cap" {
-		return name + "(~)"
+	if d.inCall >= 2 && !d.full && name != "" && name != "len" && name != "append" && name != "cap" {
+		// elide the arguments of deeply nested calls, but keep distinct calls
+		// distinct: the elision carries a fingerprint of the full rendering
+		d.full = true
+		saveBusy := d.busy
+		d.busy = map[ssa.Value]bool{}
+		fullText := d.callDescFull(c, depth)
+		d.busy = saveBusy
+		d.full = false
+		return name + "(~" + fp4(fullText) + ")"
 	}
 	d.inCall++
 	defer func() { d.inCall-- }()
